@@ -25,6 +25,7 @@ func runC16(c *core.Ctx) {
 	const pk = "pdf/pagetree"
 	defer rulePageNumberAdvance(c)
 	defer rulePageTreeReaders(c)
+	defer ruleAliasHygiene(c, [3]string{"C16-R7", "C16-R8", "C16-R9"}, "pdf/pagetree")
 	c.Check("C16-R1", pk+".(*Writer).mergeNodes", "/Kids, /Count, the node's page count and the children's /Parent come from one and the same child slice", func(o *core.Ob) {
 		fn := c.Prog.Func(pk, "(*Writer).mergeNodes")
 		g := fn.Graph()
